@@ -173,6 +173,9 @@ macro_rules! all_dims_1d {
         inst_1d!($rep, $e, Ix6, vec![3, 1, 2, 1, 1, 2], $ename);
         inst_1d!($rep, $e, IxDyn, vec![4, 3], $ename);
         inst_1d!($rep, $e, IxDyn, vec![4], $ename);
+        inst_1d!($rep, $e, IxDyn, vec![3, 1, 2, 1, 2], $ename);
+        inst_1d!($rep, $e, IxDyn, vec![3, 2, 1, 1, 2, 1], $ename);
+        inst_1d!($rep, $e, IxDyn, vec![3, 1, 1, 2, 1, 1, 2], $ename);
     }};
 }
 macro_rules! all_dims_2d {
@@ -184,6 +187,8 @@ macro_rules! all_dims_2d {
         inst_2d!($rep, $e, Ix6, vec![3, 2, 1, 1, 2, 1], $ename);
         inst_2d!($rep, $e, IxDyn, vec![3, 3, 2], $ename);
         inst_2d!($rep, $e, IxDyn, vec![4, 3], $ename);
+        inst_2d!($rep, $e, IxDyn, vec![3, 3, 1, 2, 1, 2], $ename);
+        inst_2d!($rep, $e, IxDyn, vec![3, 3, 2, 1, 1, 1, 2], $ename);
     }};
 }
 
